@@ -28,10 +28,13 @@ fn leaf(kind: usize, id: &mut u32) -> String {
         5 => "(imax + 1 > 0)".into(),
         6 => "({}.zz)".into(),
         7 => "undeclared_name".into(),
-        _ => format!("boom({})", id),
+        8 => format!("boom({})", id),
+        // calls of functions no context registers: an error only if they are reached
+        9 => format!("nosuch_fn({})", id),
+        _ => "t.nosuch_method()".into(),
     }
 }
-const NLEAF: usize = 9;
+const NLEAF: usize = 11;
 
 fn observable(kind: usize) -> bool {
     kind >= 2
@@ -135,6 +138,27 @@ pub fn run(em: &mut Emit, thorough: bool, seed: u64) {
     for t in &trees {
         let tags = format!("nt={};kind=c06-exh", t.obs as u8);
         emit_program(em, &t.src, &sp, &tags);
+    }
+    // flat chains (no parentheses): every length up to 40, the deciding operand near the end, at a
+    // random place or absent, logging operands everywhere else
+    let mut rng = Rng::new(seed ^ 0xC06C);
+    for len in 2..=40usize {
+        for (op, neutral, deciding) in [("&&", 2usize, 3usize), ("||", 3, 2)] {
+            for variant in 0..(if thorough { 12 } else { 5 }) {
+                let pos = match variant { 0 => len, 1 => len - 1, 2 => 0, 3 => len / 2, _ => rng.below(len as u64 + 1) as usize };
+                let mut terms: Vec<String> = Vec::new();
+                for i in 0..len {
+                    let k = if i == pos { deciding } else if i > pos && rng.chance(1, 3) { *rng.pick(&[4usize, 7, 8, 9, 10]) } else { neutral };
+                    terms.push(leaf(k, &mut id));
+                }
+                let src = terms.join(&format!(" {} ", op));
+                emit_program(em, &src, &sp, "nt=1;kind=c06-chain");
+                // the same chain as an operand of the other operator and of a conditional
+                let other = if op == "&&" { "||" } else { "&&" };
+                emit_program(em, &format!("{} {} {} {} {}", leaf(neutral, &mut id), other, src, other, leaf(neutral, &mut id)), &sp, "nt=1;kind=c06-chain-mixed");
+                emit_program(em, &format!("({}) ? {} : {}", src, leaf(2, &mut id), leaf(3, &mut id)), &sp, "nt=1;kind=c06-chain-cond");
+            }
+        }
     }
     let mut rng = Rng::new(seed ^ 0xC06);
     let n = if thorough { 300_000 } else { 12_000 };
